@@ -60,8 +60,10 @@ TraceCall ==
 
 DispFree == disp.pc \in {"idle", "reply", "done"}   \* no further dispatcher event owed for the last request
 
-\* a skipped upgrade send is tolerated (the property allows "leaves the record untouched")
-DispFreeOrSkippedUpgrade == DispFree \/ disp.pc = "upsend"
+\* a skipped upgrade send is tolerated (the property allows "leaves the record untouched"); an upgrade whose
+\* password fails the policy is refused before the library is called, so no exec event follows its upbegin
+DispFreeOrSkippedUpgrade == \/ DispFree \/ disp.pc = "upsend"
+                            \/ (disp.pc = "upexec" /\ ~PolicyPass(disp.req.op.u, disp.req.op.p))
 
 TraceExecClient ==
     /\ IsEvent("exec") /\ DispFreeOrSkippedUpgrade
@@ -121,6 +123,15 @@ TraceNotify ==
     /\ disp' = [disp EXCEPT !.pc = IF disp.req.c = UpgradeClient THEN "done" ELSE "reply"]
     /\ UNCHANGED <<chans, files, cl, notifyQ, upq, sem, ack, cres, upbag>>
 
+\* a write whose password fails the policy is refused before the library is called: no exec event, a negative answer
+TraceRetRefusedByPolicy ==
+    /\ IsEvent("ret")
+    /\ cl[Ev.c].pc = "waiting" /\ cl[Ev.c].op.k \in {"add", "update"}
+    /\ ~PolicyPass(cl[Ev.c].op.u, cl[Ev.c].op.p)
+    /\ ~Ev.ok
+    /\ cl' = [cl EXCEPT ![Ev.c] = [pc |-> "idle", op |-> NoOp, n |-> 0]]
+    /\ UNCHANGED <<chans, disp, files, notifyQ, upq, sem, ack, owed, cres, upbag>>
+
 TraceRet ==
     /\ IsEvent("ret")
     /\ cl[Ev.c].pc = "executed"
@@ -135,7 +146,7 @@ TraceRet ==
 TraceIdle ==
     /\ IsEvent("idle")
     /\ \A c \in Clients : cl[c].pc = "idle"
-    /\ DispFree /\ owed = 0
+    /\ DispFreeOrSkippedUpgrade /\ disp.pc # "upsend" /\ owed = 0
     /\ \A u \in Users :
           /\ files[u].present = Ev.files[u].present
           /\ files[u].present => /\ files[u].pw = Ev.files[u].pw
@@ -147,7 +158,7 @@ TraceIdle ==
 
 TraceNext ==
     \/ TraceReset \/ TraceCall \/ TraceExecClient \/ TraceUpSent \/ TraceUpDrop
-    \/ TraceUpBegin \/ TraceUpgradeExec \/ TraceUpgradeSkip \/ TraceNotify \/ TraceRet \/ TraceIdle
+    \/ TraceUpBegin \/ TraceUpgradeExec \/ TraceUpgradeSkip \/ TraceNotify \/ TraceRet \/ TraceRetRefusedByPolicy \/ TraceIdle
 
 TraceInit ==
     /\ Init /\ l = 1
